@@ -43,7 +43,7 @@ type runConfig struct {
 func defaultConfig(tier string) *runConfig {
 	c := &runConfig{
 		tier: tier, workers: min(16, runtime.NumCPU()), solverKind: "z3",
-		queryTimeoutMs: 400, fallbackSolver: "cvc5", fallbackTimeoutMs: 30000, unwind: 200, maxInstrs: 20_000_000, maxDepth: 400,
+		queryTimeoutMs: 400, fallbackSolver: "cvc5", fallbackTimeoutMs: 30000, unwind: 1000, maxInstrs: 20_000_000, maxDepth: 400,
 		maxDecisions: 20000, maxValues: 300, maxAlloc: 1 << 22, maxViolationsPerLabel: 3,
 		maxPaths: 400000, harnessBudget: 150 * time.Second,
 	}
@@ -79,6 +79,7 @@ func (w *worker) runPath(j *job, it *workItem) {
 	// keep the term table and the solver's declarations bounded
 	if len(in.tt.all) > 400000 {
 		in.tt = newTermTable()
+		in.atomCache = nil
 		in.consts = map[*ssa.Const]value{}
 		if err := in.solver.Restart(); err != nil {
 			j.noteNotCovered("solver restart failed: " + err.Error())
